@@ -33,14 +33,14 @@ type c20Phase struct {
 }
 
 type c20Spec struct {
-	Names   []string     `json:"names"`
-	HasInc  []bool       `json:"has_inc"`
-	Loaders []string     `json:"loaders"`
-	Disk    *DiskSpec    `json:"disk"`
-	Phases  []c20Phase   `json:"phases"`
-	Strat   string       `json:"strategy"`
+	Names   []string   `json:"names"`
+	HasInc  []bool     `json:"has_inc"`
+	Loaders []string   `json:"loaders"`
+	Disk    *DiskSpec  `json:"disk"`
+	Phases  []c20Phase `json:"phases"`
+	Strat   string     `json:"strategy"`
 	strat   Strategy
-	Plan    []FaultSpec  `json:"fault_plan,omitempty"`
+	Plan    []FaultSpec `json:"fault_plan,omitempty"`
 }
 
 type c20Res struct {
@@ -250,7 +250,7 @@ type c20In struct {
 }
 
 const (
-	causeNone = iota
+	causeNone    = iota
 	causeOutside // an injected fault, or an included file that is missing/corrupt: legal failure, not modelled
 	causeEnoent
 	causeCompile
